@@ -53,6 +53,11 @@ pub fn main(tier: Tier, seed: u64) -> i32 {
         .filter(|c| !c.muts[0].malformed || matches!(c.muts[0].node, Some(crate::schema::NodeMut::SomeToNone)))
         // an omitted 'output wire shares'/'lambda' entry is judged by C02 (wrong output), not here
         .collect();
+    let mut cases = cases;
+    match crate::campaign::gen_pair_cases(&cfgs, &["wire shares", "output wire shares", "lambda"], 8) {
+        Ok(p) => cases.extend(p),
+        Err(e) => rep.machinery(e),
+    }
     let j = judge_detection(&mut rep, &cfgs, &cases, "C03");
     // tap: the garbler garbles a wrong share bit into the rows of AND gate g (rows still decrypt)
     let mut tap_cases = vec![];
